@@ -689,7 +689,7 @@ def gen_swap(h, rng, p, u, limits=True):
     if bad:
         named = rng.choice([ask, ("t", offer[1] + 1), ("n", 0)])
     elif rng.random() < 0.05:
-        n_amount = amount + rng.choice([-1, 1])
+        n_amount = max(0, amount + rng.choice([-1, 1]))      # an amount of 0 is possible here: never a negative numeral
     return ("send", offer[1], u, p, amount, ("hswap", named, n_amount, bp, ms, to))
 
 
